@@ -9,5 +9,5 @@ CONSTANTS
   LevelsSmall = {0, 1, 4, 6}
   MaxCrit = 3
   TripleSlots = {1, 2, 4, 5, 7, 8}
-INVARIANTS DisabledNeverMatches NegationInverts NoExtNeverHolds Conjunction OneFailing TypeRules LiteralIsExact IgnoreCaseAdds
+INVARIANTS DisabledNeverMatches NegationInverts NoExtNeverHolds Conjunction OneFailing TypeRules LiteralIsExact IgnoreCaseAdds LcSetSemantics
 CHECK_DEADLOCK FALSE
